@@ -1,7 +1,27 @@
 (* C04 — property theorems. Statements only, each closed by `exact <lemma>`, Print Assumptions beneath,
-   and the non-vacuity / refutation examples. *)
-From C04 Require Import Model ProofsChunk.
+   then the non-vacuity examples and the refutations of the unrepaired code (…_v0). *)
+From Coq Require Import Lia ZifyN ZifyNat.
+From C04 Require Import Model ProofsBase ProofsChunk ProofsSealed ProofsFetch ProofsMain.
 Open Scope N_scope.
+
+(* thm:C04_fetch_exact — for every configuration (IDs per block >= 1, initial chunk >= 1), every corpus split
+   over sealed and active fractions (per fraction: distinct 64-bit IDs; fraction names distinct; an ID stored in
+   at most one fraction; pruning by time range / occupancy map sound for request ranges up to B) and every
+   request of distinct 64-bit IDs with timestamps <= B — any order, present and absent in any proportion,
+   hints right, wrong, unknown or missing — the stream ends without error, crash or fuel exhaustion and
+   carries, position by position, the requested ID and exactly the document stored under it in a fraction the
+   hint admits, or nothing. The entry of an ID depends on nothing but that ID and its hint. *)
+Theorem C04_fetch_exact : forall B g frs ids, cfg_ok g -> corpus_wf B frs -> req_ok B ids ->
+  stream g frs ids = SOk (map (fun s => (fst s, expected frs s)) ids).
+Proof. exact stream_exact. Qed.
+Print Assumptions C04_fetch_exact.
+
+(* the pruning hypothesis of C04_fetch_exact holds for EVERY bound B (so for all 64-bit requests) when the
+   fraction carries no occupancy map and its [From, To] covers its documents *)
+Theorem C04_pruning_sound_without_map : forall B f,
+  f_dist f = None -> (forall x b, lookup f x = Some b -> f_from f <= fst x /\ fst x <= f_to f) -> info_sound B f.
+Proof. exact info_sound_nodist. Qed.
+Print Assumptions C04_pruning_sound_without_map.
 
 (* The adaptive chunk size is at least 1 for EVERY list of found documents (found sizes), whatever the
    previous size >= 1 was: no division by zero, no chunk of 0 IDs. *)
@@ -18,3 +38,169 @@ Theorem C04_chunking_total : forall g fetch ids,
   batch_loop (S (length ids)) (calc_now g) fetch ids (init_chunk g) <> BCrash.
 Proof. exact chunking_total. Qed.
 Print Assumptions C04_chunking_total.
+
+(* the batches of a request: each holds at least one entry, together one entry per requested ID *)
+Theorem C04_batches_cover : forall B g frs ids, cfg_ok g -> corpus_wf B frs -> req_ok B ids ->
+  Forall (fun k => 1 <= k) (batch_lens (batches g (map compile frs) ids)) /\
+  fold_right N.add 0 (batch_lens (batches g (map compile frs) ids)) = N.of_nat (length ids).
+Proof. exact batch_lens_ok. Qed.
+Print Assumptions C04_batches_cover.
+
+(* thm:C04_lessorequal_shortcuts — on a sealed fraction the comparison with its block-minimum shortcuts and
+   the RID = MaxUint64 shortcut equals the plain comparison "ID at this LID <= x", for every LID of the table,
+   and never indexes out of range. *)
+Theorem C04_lessorequal_shortcuts : forall g f lid x,
+  1 <= ipb g -> f_sealed f = true -> docs_wf (f_docs f) -> lid < cf_n (compile f) ->
+  exists e, nth_error (table_of f) (N.to_nat lid) = Some e /\
+            less_or_equal g (compile f) lid x = Ok (id_leq (fst e) x).
+Proof. exact less_or_equal_spec. Qed.
+Print Assumptions C04_lessorequal_shortcuts.
+
+(* one fraction, sealed (binary search with moving left bound + bound check) or active: ANY list of IDs —
+   unsorted, repeated, below/above/between everything stored — is answered entry by entry with what the
+   fraction stores, never with a panic *)
+Theorem C04_fraction_lookup : forall B g f ids, 1 <= ipb g -> frac_wf B f -> Forall id_u64 ids ->
+  frac_fetch g (compile f) ids = Ok (map (lookup f) ids).
+Proof. exact frac_fetch_ok. Qed.
+Print Assumptions C04_fraction_lookup.
+
+(* ------------------------------------------------------------------ non-vacuity *)
+Definition ex_g := mkCfg 2 4194304 1000.
+Definition ex_f1 := mkFrac 1 true 100 200 None [((100,5),(1,10)); ((150,7),(2,20)); ((200,1),(3,1)); ((150,9),(4,3)); ((120,3),(5,7))].
+Definition ex_f2 := mkFrac 2 false 150 300 None [((150,8),(6,10)); ((300,7),(7,20))].
+Definition ex_ids : list idsrc :=
+  [((150,7),0); ((100,1),0); ((150,8),2); ((300,7),1); ((100,5),1); ((99,5),0); ((120,3),9); ((301,0),0)].
+
+Ltac nodup := repeat (apply NoDup_cons; [simpl; intuition congruence|]); apply NoDup_nil.
+Ltac in_cases H := repeat (destruct H as [H|H]; [inversion H; subst; clear H|]); try contradiction.
+
+Lemma ex_f1_wf : frac_wf max64 ex_f1.
+Proof.
+  split; [split|split].
+  - simpl. nodup.
+  - repeat constructor; simpl; unfold max64; lia.
+  - simpl; lia.
+  - apply info_sound_nodist; [reflexivity|]. intros x b H. apply lookup_docs_in in H. simpl in H.
+    in_cases H; simpl; lia.
+Qed.
+Lemma ex_f2_wf : frac_wf max64 ex_f2.
+Proof.
+  split; [split|split].
+  - simpl. nodup.
+  - repeat constructor; simpl; unfold max64; lia.
+  - simpl; lia.
+  - apply info_sound_nodist; [reflexivity|]. intros x b H. apply lookup_docs_in in H. simpl in H.
+    in_cases H; simpl; lia.
+Qed.
+Lemma ex_corpus_wf : corpus_wf max64 [ex_f1; ex_f2].
+Proof.
+  split; [repeat constructor; [apply ex_f1_wf|apply ex_f2_wf]|]. split.
+  - simpl. nodup.
+  - intros f1 f2 x H1 H2 L1 L2.
+    assert (forall f, In f [ex_f1; ex_f2] -> lookup f x <> None -> In x (map fst (f_docs f))).
+    { intros f Hf Hl. destruct (lookup_docs_none (f_docs f) x) as [_ Hn].
+      destruct (in_dec (fun a b : id => ltac:(decide equality; apply N.eq_dec)) x (map fst (f_docs f))); [assumption|].
+      exfalso. apply Hl. apply Hn. assumption. }
+    pose proof (H f1 H1 L1) as I1. pose proof (H f2 H2 L2) as I2.
+    in_cases H1; in_cases H2; try reflexivity; simpl in I1, I2; exfalso; in_cases I1; in_cases I2.
+Qed.
+Lemma ex_req_ok : req_ok max64 ex_ids.
+Proof.
+  split; [|split].
+  - simpl. nodup.
+  - repeat constructor; simpl; unfold max64; lia.
+  - repeat constructor; simpl; unfold max64; lia.
+Qed.
+
+(* the hypotheses of C04_fetch_exact are satisfiable, and the conclusion is what the model computes: present
+   IDs of a sealed (two ID blocks) and an active fraction, absent IDs at the fraction's oldest timestamp with a
+   smaller random part, below and above everything, a wrong hint (300,7 is in fraction 2), an unknown hint *)
+Example C04_fetch_exact_nonvacuous :
+  cfg_ok ex_g /\ corpus_wf max64 [ex_f1; ex_f2] /\ req_ok max64 ex_ids /\
+  stream ex_g [ex_f1; ex_f2] ex_ids =
+  SOk [((150,7), Some (2,20)); ((100,1), None); ((150,8), Some (6,10)); ((300,7), None);
+       ((100,5), Some (1,10)); ((99,5), None); ((120,3), None); ((301,0), None)].
+Proof.
+  split; [split; simpl; lia|]. split; [exact ex_corpus_wf|]. split; [exact ex_req_ok|].
+  vm_compute. reflexivity.
+Qed.
+
+Example C04_chunking_nonvacuous :
+  fetch_safe (fetch_docs ex_g (map compile [ex_f1; ex_f2])) /\ 1 <= init_chunk ex_g.
+Proof.
+  split; [|simpl; lia]. intros ch Hne. unfold fetch_docs. rewrite fetch_docs_step by exact Hne. cbv zeta.
+  destruct (sort_ids ch) as [[s lo] hi].
+  destruct (fetch_all true ex_g _); split; discriminate.
+Qed.
+
+(* ------------------------------------------------------------------ the code before the repairs *)
+(* defect #3 (b3c921d reverted): one 1-byte document found among 3 requested IDs gives an average of 0 and a
+   division by zero in the loader goroutine — the process dies; the repaired code answers *)
+Example C04_refuted_div0 :
+  let ids := [((200,1),0); ((50,1),0); ((50,2),0)] in
+  cfg_ok ex_g /\ corpus_wf max64 [ex_f1; ex_f2] /\ req_ok max64 ids /\
+  stream_v0_div ex_g [ex_f1; ex_f2] ids = SCrash /\
+  stream ex_g [ex_f1; ex_f2] ids = SOk [((200,1), Some (3,1)); ((50,1), None); ((50,2), None)].
+Proof.
+  cbv zeta. split; [split; simpl; lia|]. split; [exact ex_corpus_wf|]. split.
+  - split; [|split].
+    + simpl. nodup.
+    + repeat constructor; simpl; unfold max64; lia.
+    + repeat constructor; simpl; unfold max64; lia.
+  - split; vm_compute; reflexivity.
+Qed.
+
+(* the design's witness: 1000 IDs, 999 absent, one 1-byte document *)
+Example C04_refuted_div0_1000 :
+  let ids := ((200,1),0) :: map (fun i => ((50, N.of_nat i), 0)) (seq 1 999) in
+  stream_v0_div ex_g [ex_f1; ex_f2] ids = SCrash /\
+  (exists sent, stream ex_g [ex_f1; ex_f2] ids = SOk sent /\ length sent = 1000%nat
+                /\ nth_error sent 0 = Some ((200,1), Some (3,1))).
+Proof.
+  cbv zeta. split; [vm_compute; reflexivity|]. eexists. split; [vm_compute; reflexivity|].
+  split; reflexivity.
+Qed.
+
+(* calcChunkSize before the repair: division by zero, and chunk size 0 for an average above MaxFetchSizeBytes *)
+Example C04_calc_chunk_v0_refuted :
+  calc_chunk_v0 ex_g [Some (1,1); None; None] 1000 = None /\
+  calc_chunk_v0 ex_g [Some (1,5000000)] 1000 = Some 0 /\
+  calc_chunk ex_g [Some (1,1); None; None] 1000 = 4194304 /\
+  calc_chunk ex_g [Some (1,5000000)] 1000 = 1.
+Proof. repeat split; vm_compute; reflexivity. Qed.
+
+(* defect #4 (2f1e999 reverted): an absent ID with the sealed fraction's oldest timestamp and a random part
+   below the smallest stored one indexes the ID table at its length: the panic turns the whole batch into an
+   error and the present document (150,7) is not delivered; the repaired code delivers it *)
+Example C04_refuted_lid_oob :
+  let ids := [((150,7),0); ((100,1),0)] in
+  cfg_ok ex_g /\ corpus_wf max64 [ex_f1; ex_f2] /\ req_ok max64 ids /\
+  stream_v0_lid ex_g [ex_f1; ex_f2] ids = SErr [] /\
+  stream ex_g [ex_f1; ex_f2] ids = SOk [((150,7), Some (2,20)); ((100,1), None)].
+Proof.
+  cbv zeta. split; [split; simpl; lia|]. split; [exact ex_corpus_wf|]. split.
+  - split; [|split].
+    + simpl. nodup.
+    + repeat constructor; simpl; unfold max64; lia.
+    + repeat constructor; simpl; unfold max64; lia.
+  - split; vm_compute; reflexivity.
+Qed.
+
+Example C04_find_lids_v0_refuted : exists g f x, f_sealed f = true /\ docs_wf (f_docs f) /\ lookup f x = None /\
+  find_lids_v0 g (compile f) None 1 [x] = Panic /\ find_lids g (compile f) None 1 [x] = Ok [0].
+Proof. exact find_lids_v0_refuted. Qed.
+
+(* ------------------------------------------------------------------ finding on the code as it is
+   A requested ID whose timestamp is >= 2^63 (MID.Time() = time.UnixMilli(int64(mid)) is then before 1970, index 0
+   of the occupancy map) makes IsIntersecting(minMID, maxMID) ask HasBitsIn(left, 0) with left > 0: a sealed
+   fraction whose occupancy-map window contains its documents is dropped from the candidates and the OTHER,
+   stored IDs of the request come back empty. So info_sound B f fails for B >= 2^63 on such fractions
+   (C04_fetch_exact covers them for B < 2^63 only); without the big ID the document is returned. *)
+Definition ex_fd := mkFrac 1 true 1000000 1090000
+  (Some (mkDist 1000000 1700000 60000 [6; 0])) [((1000000,5),(1,10)); ((1090000,7),(2,20))].
+Example C04_info_unsound_above_int64 :
+  lookup ex_fd (1000000,5) = Some (1,10) /\
+  intersecting ex_fd 1000000 two63 = false /\
+  stream ex_g [ex_fd] [((1000000,5),0); ((two63,1),0)] = SOk [((1000000,5), None); ((two63,1), None)] /\
+  stream ex_g [ex_fd] [((1000000,5),0); ((two63 - 1,1),0)] = SOk [((1000000,5), Some (1,10)); ((two63 - 1,1), None)].
+Proof. repeat split; vm_compute; reflexivity. Qed.
